@@ -347,7 +347,7 @@ Definition lib_cat_init (ops : list shape) (d : Z) : res unit :=
 Inductive entry :=
 | E_matmul | E_rmatmul | E_solve | E_inv_quad | E_inv_quad_logdet | E_add | E_sub | E_mul
 | E_add_diagonal | E_expand | E_getitem | E_logdet | E_diagonalization | E_root_decomposition
-| E_root_inv_decomposition.
+| E_root_inv_decomposition | E_cholesky.
 
 Definition entry_eqb (x y : entry) : bool :=
   match x, y with
@@ -355,7 +355,7 @@ Definition entry_eqb (x y : entry) : bool :=
   | E_inv_quad_logdet, E_inv_quad_logdet | E_add, E_add | E_sub, E_sub | E_mul, E_mul
   | E_add_diagonal, E_add_diagonal | E_expand, E_expand | E_getitem, E_getitem | E_logdet, E_logdet
   | E_diagonalization, E_diagonalization | E_root_decomposition, E_root_decomposition
-  | E_root_inv_decomposition, E_root_inv_decomposition => true
+  | E_root_inv_decomposition, E_root_inv_decomposition | E_cholesky, E_cholesky => true
   | _, _ => false
   end.
 
@@ -406,7 +406,7 @@ Definition req_exact (e : entry) : option (list guard) :=
 Definition req_square (e : entry) : bool :=
   match e with
   | E_solve | E_inv_quad | E_inv_quad_logdet | E_add_diagonal | E_logdet | E_diagonalization
-  | E_root_decomposition | E_root_inv_decomposition => true
+  | E_root_decomposition | E_root_inv_decomposition | E_cholesky => true
   | _ => false
   end.
 
